@@ -47,15 +47,31 @@ Cyc4On == "VERIF_CYC4" \in DOMAIN IOEnv /\ IOEnv.VERIF_CYC4 \in {"1", "2"}
 (* runs of at most this many executed instructions ("2" = thorough tier: the evaluation of long runs is slow in TLC) *)
 Cyc4MaxN == IF IOEnv.VERIF_CYC4 = "2" THEN 300 ELSE 48
 
-CaseRec(fam, prog, regs0, img, memSize, fin, focusRegs, focusAddrs, tags, extra) ==
-  [ mem0 |-> <<>>, fam |-> fam, prog |-> prog, regs0 |-> IntRegs(regs0), img |-> img, memSize |-> memSize,
+(* alt4 / alt5: when the cycle-accurate model says that MVP-4 / MVP-5 as coded drop write-backs at the  *)
+(* final `ret` (finding F09a), the exact final state they reach; the class tag is then withdrawn and the *)
+(* harness accepts exactly that state as the known finding (anything else is a violation).               *)
+AltOf(prog, regs0, mem0, img, memSize, lost) ==
+  IF lost = {} THEN [lost |-> {}]
+  ELSE LET a == SkipRun(prog, InitStateM(regs0, mem0), lost, img, memSize, 4000)
+       IN [lost |-> lost, regs |-> IntRegs(a.regs), mem |-> a.mem]
+
+CaseRecM(fam, prog, regs0, mem0, img, memSize, fin, focusRegs, focusAddrs, tags, extra) ==
+  LET on == Cyc4On /\ fin.n <= Cyc4MaxN
+      r4 == IF on THEN ResP(prog, fin, FALSE) ELSE [cyc |-> -1, lost |-> {}]
+      r5 == IF on THEN ResP(prog, fin, TRUE) ELSE [cyc |-> -1, lost |-> {}]
+  IN
+  [ mem0 |-> mem0, fam |-> fam, prog |-> prog, regs0 |-> IntRegs(regs0), img |-> img, memSize |-> memSize,
     misal |-> fin.misal,
     exp |-> [ status |-> fin.status, regs |-> IntRegs(fin.regs), mem |-> fin.mem, n |-> fin.n,
               cyc1 |-> fin.cyc1, cyc2 |-> fin.cyc2,
-              cyc4 |-> IF Cyc4On /\ fin.n <= Cyc4MaxN THEN Cyc4(prog, fin) ELSE -1,
-              cyc5 |-> IF Cyc4On /\ fin.n <= Cyc4MaxN THEN Cyc5(prog, fin) ELSE -1,
+              cyc4 |-> r4.cyc, cyc5 |-> r5.cyc,
               \* MVP-3 writes every resident data line back when the run ends
               cyc3 |-> fin.cyc3 + LatMem * Len(fin.l1d3), pcs |-> [k \in 1 .. Len(fin.ev) |-> fin.ev[k].i],
               addrs |-> [k \in 1 .. Len(fin.ev) |-> fin.ev[k].a] ],
+    model45 |-> on /\ r4.cyc > 0 /\ r5.cyc > 0,
+    alt4 |-> AltOf(prog, regs0, mem0, img, memSize, r4.lost),
+    alt5 |-> AltOf(prog, regs0, mem0, img, memSize, r5.lost),
     focusRegs |-> focusRegs, focusAddrs |-> focusAddrs, tags |-> tags, extra |-> extra ]
+CaseRec(fam, prog, regs0, img, memSize, fin, focusRegs, focusAddrs, tags, extra) ==
+  CaseRecM(fam, prog, regs0, <<>>, img, memSize, fin, focusRegs, focusAddrs, tags, extra)
 =======================================================================
